@@ -857,7 +857,12 @@ impl<'a> GeneratorState<'a> {
                             }
                         }
                         _ => {
-                            if tmp_in_use || self.tmp_in_use || self.saved_y {
+                            if v.var_type == VariableType::Char || v.var_type == VariableType::Short
+                            {
+                                Err(self
+                                    .compiler_state
+                                    .syntax_error("Subscript not allowed on variables", pos))
+                            } else if tmp_in_use || self.tmp_in_use || self.saved_y {
                                 Err(self
                                     .compiler_state
                                     .syntax_error("Code too complex for the compiler", pos))
